@@ -241,4 +241,44 @@ PROPS = {
                  "convert ...')",
                  'chains deeper than 10 are C17(ii) (reported as an error), not a missed path'],
  'timeout': {'quick': 900, 'thorough': 3600}},
+    "C06": {'engine': 'TestC06',
+ 'lean_modules': ['S2S.Props.C06'],
+ 'required_theorems': ['C06_relay_prefix',
+                       'C06_relay_exact_while_running',
+                       'C06_relay_exact_until_latch',
+                       'C06_every_schedule_terminates',
+                       'C06_quiescent_ended_is_done',
+                       'C06_every_schedule_ends_together',
+                       'C06_ends_together',
+                       'C06_settle_is_run',
+                       'C06_stuck_without_handler_return_cancel',
+                       'C06_stuck_without_ctx_cancel',
+                       'C06_closeSend_guard_leak',
+                       'C06_shutdown_needs_conn_close'],
+ 'rule': 'traces of pass-through stream ops against the real adminServiceProxyServer.StreamWorkflowReplicationMessages -> handleStream -> '
+         'StreamForwarder.Run (default mode and LCM mode with valid shard ids) inside a testing/synctest bubble with queue-based fake source '
+         '(AdminServiceClient + client stream) and initiator (server stream): one op line = a burst of events (src msg/eof/err/unknown, ini '
+         'ack/eof/err/cancel/unknown, srcsendfail, inisendfail, shutdown) applied atomically behind a gate, then quiescence; `tick` = 1.1 s of '
+         'virtual time (the 1 s CloseSend guard). Exhaustive: 10 ending kinds x every position (i,j) of 3+3 (thorough 4+4) messages x both '
+         'interleaving orders x stepwise and as one concurrent burst (repeated) x 4 stream configurations (default/LCM, source answers / ignores the '
+         'half-close); then random traces (to 40 / thorough 200 messages) with random bursts and endings inside bursts. Every op compares with the '
+         'Lean model: ids newly received by each side, CloseSend attempted, client context cancelled, handler returned and WHICH handler goroutines '
+         'are alive (runtime.Stack, s2s-proxy/proxy frames of this bubble: H, FA, FR, LS, LT, CS); the per-op relay counts are passed to the model '
+         'as a scheduling hint (Go select). Monitor: prefix + proto.Equal payloads, completeness while nothing ended, one-sided bursts fully relayed '
+         'before their ending, after any ending: returned, CloseSend attempted, context cancelled, no goroutine left; nothing relayed after return. '
+         'A trace is non-trivial when it contains an ending; distinct by op list. Excluded environments (corpus/C06/excluded_env.json: CloseSend '
+         'blocking > 1 s, no server-stream cancel on return, Recv deaf to cancellation, shutdown without closing the client connection, open '
+         'failure) are replayed for model correspondence only.',
+ 'assumptions': ["GrpcStreamEnv: cancelling the outgoing context makes the client stream's Recv return an error; gRPC cancels the server stream's "
+                 'context when the handler returns (emulated by the harness); CloseSend returns before its 1 s guard (grpc-go never blocks there). '
+                 'NOT assumed: that the source answers the half-close.',
+                 'Send on either stream returns (success or error) without blocking indefinitely; flow-control stalls of a peer that neither reads '
+                 'nor ends are not modelled',
+                 "proxy shutdown reaches a pass-through stream only through ClusterConnection's wiring (lifetime end closes the client connection => "
+                 'the source stream fails); the handler itself never reads `lifetime` (witness C06_shutdown_needs_conn_close)',
+                 'timing: the 1 s guard timer does not beat a goroutine that is runnable (virtual time in the harness advances only at quiescence)',
+                 'payloads are carried by identity in the model (the code forwards the received pointer); byte-for-byte equality is checked on the '
+                 'real code by the monitor',
+                 'LCM mode: the stream-open metadata rewrite is C07 (compared here at `begin`); the relay machine is the same'],
+ 'timeout': {'quick': 900, 'thorough': 7200}},
 }
